@@ -441,6 +441,18 @@ pub fn run(ctx: &Ctx) -> CheckResult {
                     })
                     .collect();
                 check_seq(cfg, &ops, &mut out);
+                // the same stream with one reset() (composite and parts together) at positions that are not
+                // multiples of the period
+                for at in [n + 1, n + n / 2 + 1, 2 * n - 1] {
+                    if out.failed() {
+                        return out;
+                    }
+                    if at < len {
+                        let mut with_reset = ops.clone();
+                        with_reset[at] = Op::Reset;
+                        check_seq(cfg, &with_reset, &mut out);
+                    }
+                }
                 for via in VIAS {
                     for at in [1usize, n / 2, n, n + 1, 2 * n + 1] {
                         if out.failed() {
